@@ -15,7 +15,7 @@ def ensure_wt():
     if not os.path.isdir(WT):
         sh("git -C /repo worktree add -q --detach %s HEAD" % WT)
         shutil.copy("/repo/Cargo.lock", WT)
-    sh("git checkout -q --detach $(git -C /repo rev-parse HEAD) && git checkout -- . && git clean -fdq -e target -e Cargo.lock", cwd=WT)
+    sh("git reset -q --hard; git checkout -q --detach $(git -C /repo rev-parse HEAD) && git reset -q --hard && git clean -fdq -e target -e Cargo.lock", cwd=WT)
 
 def run_demo(demo_dir, mode):
     flag = "--release" if mode == "release" else ""
@@ -35,7 +35,7 @@ def main():
             continue
         res = {"id": t}
         ensure_wt()
-        rc, o, e = sh("git apply --check %s/patch.diff || git apply -3 --check %s/patch.diff" % (d, d), cwd=WT)
+        rc, o, e = sh("git apply --check %s/patch.diff || patch -p1 -F3 --dry-run -s < %s/patch.diff" % (d, d), cwd=WT)
         res["applies"] = rc == 0
         if rc != 0:
             res["apply_err"] = e[-500:]
@@ -45,7 +45,9 @@ def main():
         if has_demo:
             for mode in ("dev", "release"):
                 base[mode] = run_demo(d, mode)
-        sh("git apply %s/patch.diff || git apply -3 %s/patch.diff" % (d, d), cwd=WT)
+        sh("git apply %s/patch.diff || patch -p1 -F3 -s < %s/patch.diff; find . -name '*.orig' -not -path './target/*' -delete" % (d, d), cwd=WT)
+        res["head"] = sh("git rev-parse --short HEAD", cwd=WT)[1].strip()
+        sh("git diff > %s/patch.rebased.diff" % d, cwd=WT)
         rc, o, e = sh("cargo build --offline --workspace && cargo build --offline --workspace --release", cwd=WT)
         res["builds"] = rc == 0
         if rc != 0:
@@ -66,7 +68,7 @@ def main():
             res["demo_ok"] = any(v["base_matches_expected"] and not v["mut_matches_expected"] for v in res["demo"].values())
         else:
             res["demo_ok"] = None
-        sh("git checkout -- . && git clean -fdq -e target -e Cargo.lock", cwd=WT)
+        sh("git reset -q --hard && git clean -fdq -e target -e Cargo.lock", cwd=WT)
         json.dump(res, open(outp, "w"), indent=1)
         print(t, {k: res.get(k) for k in ("applies", "builds", "tests_ok", "demo_ok")}, flush=True)
 
